@@ -26,6 +26,7 @@ import (
 	"io"
 	"net"
 	"net/http"
+	"strconv"
 	"time"
 
 	"github.com/megaease/easegress/pkg/context"
@@ -353,4 +354,6 @@ func (rf *RemoteFilter) unmarshalHTTPContext(r *httpprot.Request, w *httpprot.Re
 		}
 	}
 	w.SetPayload(we.Body)
+	// the length of the original body no longer applies.
+	w.HTTPHeader().Set("Content-Length", strconv.Itoa(len(we.Body)))
 }
